@@ -1,10 +1,11 @@
 #!/bin/sh
 # benign_eval.sh <patch>... : apply each behaviour-preserving patch to /repo, run every check, revert.
-cd /verif
+V=${VERIF_DIR:-/verif}; R=${VERIF_REPO:-/repo}
+cd $V
 for p in "$@"; do
   echo "=== $p"
-  git -C /repo status --porcelain -- src | grep -q . && { echo "/repo dirty"; exit 1; }
-  git -C /repo apply "$p" || { echo "patch does not apply"; continue; }
+  git -C $R status --porcelain -- src | grep -q . && { echo "/repo dirty"; exit 1; }
+  git -C $R apply "$p" || { echo "patch does not apply"; continue; }
   ./check ALL $CHECK_FLAGS 2>&1 | grep -E "^(VIOLATION|UNDECIDED|OK )" | cut -c1-330
-  git -C /repo checkout -- .
+  git -C $R checkout -- .
 done
